@@ -21,6 +21,7 @@ func init() {
 	register(&Family{Name: "c09", Gen: func(seed uint64, tier string) *world.Scenario { return genC09(seed, false) }, Run: runC09})
 	register(&Family{Name: "c09pairs", Gen: func(seed uint64, tier string) *world.Scenario { return genC09(seed, true) }, Run: runC09})
 	register(&Family{Name: "c09init", Gen: genC09Init, Run: runC09})
+	register(&Family{Name: "c09shared", Gen: genC09Shared, Run: runC09})
 }
 
 type c09Combo struct{ fan, sensor, curve string }
@@ -220,6 +221,21 @@ func genC09(seed uint64, pairs bool) *world.Scenario {
 	return sc
 }
 
+// c09shared: the single faults of the enumeration, with the bystander fan using the SAME curve as the
+// affected fan (two fans sharing one curve object and its sensor): whatever happens to the fan that meets
+// the fault, the other one keeps being regulated or is restored as well.
+func genC09Shared(seed uint64, tier string) *world.Scenario {
+	sc := genC09(seed*31+7, false)
+	sc.Family, sc.Seed = "c09shared", seed
+	for i := range sc.Fans {
+		if sc.Fans[i].ID == "fb" {
+			sc.Fans[i].Curve = "ca"
+		}
+	}
+	sc.Variant += "/shared-curve"
+	return sc
+}
+
 func runC09(t *testing.T, sc *world.Scenario) *check.Result {
 	res := check.NewResult(sc.Family, sc.Seed)
 	res.ScHash = scHash(sc)
@@ -313,6 +329,11 @@ func judgeSurvive(res *check.Result, sc *world.Scenario, co *childOut, prop stri
 	unsatisfiable := func(id string) bool { return w255[id] > 0 && w255Faulted[id] == w255[id] }
 	res.State(sc.Variant + "|" + faultSig)
 	switch {
+	case co.Stuck != "":
+		res.Violate(prop, "keeps-regulating", "keeps-regulating blocked-for-ever at "+co.Stuck, 0, nil,
+			"the daemon stopped making progress: a goroutine waits for ever for a lock taken in %s (journal silent for more than 30 s, simulated time cannot advance); its fans are neither regulated nor restored; fault plan: %s", co.Stuck, faultSig)
+		res.Nontrivial = true
+		return
 	case co.PanicMsg != "":
 		res.Violate(prop, "no-abrupt-termination", "no-abrupt-termination panic at "+co.PanicSite, 0, nil,
 			"the daemon died with a Go panic: %s (at %s); fault plan: %s", co.PanicMsg, co.PanicSite, faultSig)
